@@ -1,6 +1,175 @@
+import Model.Compress
 import Driver.Util
 namespace Driver.C18
-/-- placeholder: replaced when the property's model is built -/
-def step (_ : Unit) (_ : List String) : Unit × String := ((), "unimplemented")
+open Util Compress
+
+/-! byte-string arguments: `-` (empty) | hex | `rep:<hexpattern>:<n>` | `mix:<seed>:<n>`
+    (the last two are expanded identically by the Go harness; they keep megabyte bodies off the op line) -/
+
+def hexRev : List Char → List UInt8 → Option (List UInt8)
+  | [], acc => some acc
+  | [_], _ => none
+  | a :: b :: r, acc =>
+    match hexVal a, hexVal b with
+    | some x, some y => hexRev r (UInt8.ofNat (x * 16 + y) :: acc)
+    | _, _ => none
+
+def parseHexBig (s : String) : Option (List UInt8) :=
+  if s == "-" then some [] else (hexRev s.toList []).map List.reverse
+
+def repBytes (pat : Array UInt8) : Nat → List UInt8 → List UInt8
+  | 0, acc => acc
+  | i + 1, acc => repBytes pat i (pat[i % pat.size]! :: acc)
+
+def mixByte (seed : UInt64) (i : Nat) : UInt8 :=
+  let z : UInt64 := (seed + UInt64.ofNat i) * 0x9E3779B97F4A7C15
+  let z := z ^^^ (z >>> 32)
+  let z := z * 0xBF58476D1CE4E5B9
+  let z := z ^^^ (z >>> 29)
+  z.toUInt8
+
+def mixBytes (seed : UInt64) : Nat → List UInt8 → List UInt8
+  | 0, acc => acc
+  | i + 1, acc => mixBytes seed i (mixByte seed i :: acc)
+
+def parseBytes (s : String) : Option (List UInt8) :=
+  match s.splitOn ":" with
+  | ["rep", p, n] =>
+    match parseHexBig p, n.toNat? with
+    | some pat, some k => if pat.isEmpty then none else some (repBytes pat.toArray k [])
+    | _, _ => none
+  | ["mix", sd, n] =>
+    match sd.toNat?, n.toNat? with
+    | some sd, some k => some (mixBytes (UInt64.ofNat sd) k [])
+    | _, _ => none
+  | [h] => parseHexBig h
+  | _ => none
+
+def fnv (bs : List UInt8) : UInt64 :=
+  bs.foldl (fun h b => (h ^^^ b.toUInt64) * 0x100000001b3) 0xcbf29ce484222325
+
+def hex64 (x : UInt64) : String :=
+  String.ofList ((List.range 16).map fun i => hexDigit ((x >>> UInt64.ofNat (60 - 4 * i)).toNat % 16))
+
+/-- canonical rendering of a byte string: hex up to 256 bytes, length + FNV-1a-64 above -/
+def canon (bs : List UInt8) : String :=
+  if bs.length ≤ 256 then toHex bs else s!"len={bs.length},fnv={hex64 (fnv bs)}"
+
+/-- `ok:<bytes>` | `err` | `none` -/
+def parseRes (s : String) : Option (Option (Except Unit (List UInt8))) :=
+  if s == "none" then some none
+  else if s == "err" then some (some (.error ()))
+  else if s.startsWith "ok:" then (parseBytes (s.drop 3).toString).map fun b => some (.ok b)
+  else none
+
+def errName : Err → String
+  | .tooBig => "err:tooBig" | .codec => "err:codec" | .noCompressor => "err:noCompressor"
+  | .shortRead => "err:shortRead" | .negLength => "err:negLength" | .badVersion => "err:badVersion"
+  | .panic => "crash:compress flag set with no compressor"
+
+def parseReq : String → Option Req
+  | "startup" => some .startup | "options" => some .options | "query" => some .query
+  | "prepare" => some .prepare | "execute" => some .execute | "batch" => some .batch
+  | "register" => some .register | "auth" => some .authResponse | _ => none
+
+/-- a codec given by one input/output pair each way; any other use answers an error (and shows up
+    as a disagreement with the real code) -/
+def tableCodec (encIn : List UInt8) (encOut : Option (Except Unit (List UInt8)))
+    (decIn : List UInt8) (decOut : Option (Except Unit (List UInt8))) : Codec :=
+  { enc := fun x => match encOut with
+      | some r => if x == encIn then r else .error ()
+      | none => .error (),
+    dec := fun y => match decOut with
+      | some r => if y == decIn then r else .error ()
+      | none => .error () }
+
+def mkFramer (comp : String) (version extra : Nat) (c : Codec) : Framer :=
+  let f := newFramer (if comp == "none" then none else some c) (UInt8.ofNat version)
+  { f with flags := f.flags ||| UInt8.ofNat extra }
+
+def showBuild : Except Err (List UInt8) → String
+  | .ok w => "ok:" ++ canon w
+  | .error e => errName e
+
+def parseInt (s : String) : Option Int := s.toInt?
+
+def parseSupported (s : String) : List (String × List String) :=
+  if s == "-" then [] else
+  (s.splitOn ";").map fun kv =>
+    match kv.splitOn "=" with
+    | [k, v] => (k, if v == "" then [] else v.splitOn ",")
+    | [k] => (k, [])
+    | _ => (kv, [])
+
+def step (_ : Unit) (ws : List String) : Unit × String :=
+  ((), match ws with
+  | ["req", kind, comp, ver, extra, stream, body, encres, _, _] =>
+    match parseReq kind, ver.toNat?, extra.toNat?, parseInt stream, parseBytes body, parseRes encres with
+    | some r, some v, some x, some s, some b, some er =>
+      let f := mkFramer comp v x (tableCodec b er [] none)
+      showBuild (f.buildReq r s b)
+    | _, _, _, _, _, _ => "bad-op"
+  | ["raw", comp, ver, extra, hflags, op, stream, body, encres] =>
+    match ver.toNat?, extra.toNat?, hflags.toNat?, op.toNat?, parseInt stream, parseBytes body, parseRes encres with
+    | some v, some x, some hf, some o, some s, some b, some er =>
+      let f := mkFramer comp v x (tableCodec b er [] none)
+      showBuild (f.build (UInt8.ofNat hf) (UInt8.ofNat o) s b)
+    | _, _, _, _, _, _, _ => "bad-op"
+  | ["rt", kind, comp, ver, extra, stream, body, encres, _, _] =>
+    match parseReq kind, ver.toNat?, extra.toNat?, parseInt stream, parseBytes body, parseRes encres with
+    | some r, some v, some x, some s, some b, some er =>
+      let z := match er with | some (.ok z) => z | _ => []
+      let f := mkFramer comp v x (tableCodec b er z (some (.ok b)))
+      match f.buildReq r s b with
+      | .error e => errName e
+      | .ok w =>
+        match f.decode w with
+        | .error e => "read-" ++ errName e
+        | .ok (h, b') => s!"ok flag={(h.flags &&& 1).toNat} len={h.length} same={b' == b} body={canon b'}"
+    | _, _, _, _, _, _ => "bad-op"
+  | ["read", comp, ver, wire, decin, decres] =>
+    match ver.toNat?, parseBytes wire, parseBytes decin, parseRes decres with
+    | some v, some w, some di, some dr =>
+      let f := mkFramer comp v 0 (tableCodec [] none di dr)
+      match f.decode w with
+      | .error e => errName e
+      | .ok (h, b) => s!"ok:flags={h.flags.toNat},stream={h.stream},op={h.op.toNat},len={h.length},body={canon b}"
+    | _, _, _, _ => "bad-op"
+  | ["lz4enc", body, blockres] =>
+    match parseBytes body, parseRes blockres with
+    | some b, some (some br) =>
+      let bc : BlockCodec := { encB := fun x => if x == b then br else .error (), decB := fun _ _ => .error () }
+      match lz4Encode bc b with
+      | .ok y => "ok:" ++ canon y
+      | .error _ => "err"
+    | _, _ => "bad-op"
+  | ["lz4dec", data, blockres] =>
+    match parseBytes data, parseRes blockres with
+    | some d, some br =>
+      let bc : BlockCodec := { encB := fun _ => .error (),
+                               decB := fun src n => match br with
+                                 | some r => if src == d.drop 4 && n == lz4Prefix d then r else .ok [0xde, 0xad]
+                                 | none => .ok [0xde, 0xad] }
+      match lz4Decode bc d with
+      | .ok y => "ok:" ++ canon y
+      | .error _ => "err"
+    | _, _ => "bad-op"
+  | ["hyp", _, _] => "roundtrip"
+  | ["nego", name, sup] =>
+    let idc : Codec := { enc := fun x => .ok x, dec := fun x => .ok x }
+    let c : Option Named := if name == "-" then none else some { name := name, codec := idc }
+    let supported := parseSupported sup
+    let n := negotiate (c.map (·.name)) supported
+    let cc := connCompressor c supported
+    let f := newFramer (cc.map (·.codec)) 4
+    let qflag := match f.buildReq .register 1 [] with
+      | .ok w => (w.getD 1 0 &&& 1).toNat
+      | .error _ => 9
+    let cresp := match f.readFrame { version := 0x84, flags := 1, stream := 1, op := 2, length := 0 } [] with
+      | .ok _ => "ok"
+      | .error e => errName e
+    s!"kept={cc.isSome} startup={n.startupOpt.getD "-"} qflag={qflag} cresp={cresp} alive=true"
+  | _ => "bad-op")
+
 def init : Unit := ()
 end Driver.C18
